@@ -26,7 +26,7 @@ ASSUMPTIONS = ['target rules: mysql and the library\'s own to_string: backslash 
                'sqlite, mssql, oracle: doubled quote only',
                'backslash pairs other than \\\\ \\\' \\" have no single denotation in the mindsdb dialect and are not judged for to_string; '
                'for mysql they follow the MySQL manual (\\n \\t \\0 \\b \\r \\Z, \\% \\_ kept, otherwise the character itself)']
-BUDGET = {'quick': (8, 80), 'thorough': (16, 500)}
+BUDGET = {'quick': (8, 240), 'thorough': (16, 1800)}
 ALPHA = ['a', "'", '"', '\\', '%', ':', ';', '-', '\n']
 CONTROL = ['\r', '\x00', '\x1a', '\t', '\b', '\x7f', 'a\rb', "'\r'", '\r\n', '\\\r']
 OUTPUTS = ['to_string', 'mysql', 'postgresql', 'sqlite', 'mssql', 'oracle']
